@@ -360,6 +360,13 @@ def bytes_layout(F, fn, t, depth=0):
             return bytes_layout(F, fn, s[2][0], depth + 1)
         if n.endswith(('<impl [T]>::concat', 'Concat::concat', 'slice::Concat<T>>::concat')) and s[2]:
             return bytes_layout(F, fn, s[2][0], depth + 1)
+        # byte *iterators* handed to `Vec::extend`: `s.bytes()`, `arr.into_iter()`, `a.chain(b)`, `.copied()`
+        if n.endswith('Iterator::chain') and len(s[2]) == 2:
+            return bytes_layout(F, fn, s[2][0], depth + 1) + bytes_layout(F, fn, s[2][1], depth + 1)
+        if n.endswith(('IntoIterator::into_iter', 'Iterator::copied', 'Iterator::cloned', '<impl [T]>::iter')) and s[2]:
+            return bytes_layout(F, fn, s[2][0], depth + 1)
+        if n.endswith('str>::bytes') and s[2]:
+            return [(field_path(s[2][0]), 'str', 'raw')]
         if n.endswith('ops::Index::index') and len(s[2]) == 2 and strip(s[2][1])[0] == 'agg' and strip(s[2][1])[1].endswith('RangeFull'):
             return bytes_layout(F, fn, s[2][0], depth + 1)
         if n.endswith('box_assume_init_into_vec_unsafe') and isinstance(s[3], int):
@@ -460,6 +467,9 @@ def encoder_rows(F, fn):
                     rows.extend(bytes_layout(F, fn, c.arg_term(1)))
             elif n.endswith('RoaringBitmap>::serialize_into') and on_output(c.arg_term(1)):
                 rows.append((field_path(c.arg_term(0)), 'roaring', 'portable'))
+            elif n.endswith(('Vec::<T, A>::extend', 'Extend::extend')) and len(c.args) == 2 and on_output(c.arg_term(0)) \
+                    and not any(str(r[0]).startswith('?') for r in bytes_layout(F, fn, c.arg_term(1))):
+                rows.extend(bytes_layout(F, fn, c.arg_term(1)))
             elif n.endswith(('Vec::<T, A>::extend', 'Vec::<T, A>::insert', 'Vec::<T, A>::append', 'Vec::<T, A>::resize', 'Write::write_all', 'Vec::<T, A>::extend_from_within',
                              'Extend::extend', 'Vec::<T, A>::truncate', 'Vec::<T, A>::pop', 'Vec::<T, A>::remove', 'Vec::<T, A>::clear')) and c.args and on_output(c.arg_term(0)):
                 unknown.append(c)
@@ -591,41 +601,161 @@ def nodeid_to_bytes_rows(F, fn):
 
 
 # ----------------------------------------------------------------------------- decoders
-def slice_offset(F, fn, t, depth=0):
-    """offset (list of addends) of a byte slice term relative to the decoder's input parameter"""
+_CURSORS = {}
+
+
+def cursor_states(F, fn):
+    """Flow-sensitive offsets of *cursor* locals: a `&[u8]` local that is advanced in place, directly (`cur = &cur[4..]`) or
+    through a `&mut &[u8]` alias (`*c = &c[4..]` in a virtually inlined helper).  {local: {block: addends when the block's
+    terminator runs}}; computed by one forward pass in reverse post-order (joins with different offsets give '?join')."""
+    key = id(fn)
+    if key in _CURSORS:
+        return _CURSORS[key]
+    states = {}
+    _CURSORS[key] = states
+    # mutable aliases: r = &mut L | &mut *r' | move r'
+    pts = {}
+    changed = True
+    while changed:
+        changed = False
+        for l, ds in fn.defs().items():
+            whole = [d for d in ds if not d[-1]]
+            if l in pts or len(whole) != 1 or whole[0][0] != 'assign':
+                continue
+            rv = whole[0][3]
+            tgt = None
+            if rv['k'] == 'ref' and rv.get('mut'):
+                pl = rv['place']
+                if not pl['p']:
+                    tgt = pl['l']
+                elif len(pl['p']) == 1 and pl['p'][0]['k'] == 'deref' and pl['l'] in pts:
+                    tgt = pts[pl['l']]
+            elif rv['k'] == 'use' and rv['o'].get('k') in ('move', 'copy') and not rv['o']['place']['p'] and rv['o']['place']['l'] in pts:
+                tgt = pts[rv['o']['place']['l']]
+            if tgt is not None and '[u8]' in fn.local_ty(tgt) and fn.local_ty(tgt).startswith('&'):
+                pts[l] = tgt
+                changed = True
+    cursors = set(pts.values())
+    # locals re-assigned directly more than once count as cursors too
+    for l, ds in fn.defs().items():
+        ty = fn.local_ty(l)
+        if ty.startswith('&') and ty.endswith('[u8]') and len([d for d in ds if not d[-1]]) > 1:
+            cursors.add(l)
+    if not cursors:
+        return states
+    for l in cursors:
+        states[l] = {}
+    states['alias'] = pts
+    # reverse post-order over the non-cleanup CFG
+    order = []
+    seen = set()
+
+    def dfs(b):
+        stack = [(b, iter(fn.succ(b)))]
+        seen.add(b)
+        while stack:
+            node, it = stack[-1]
+            adv = False
+            for x in it:
+                if x not in seen and not fn.blocks[x]['cleanup']:
+                    seen.add(x)
+                    stack.append((x, iter(fn.succ(x))))
+                    adv = True
+                    break
+            if not adv:
+                order.append(node)
+                stack.pop()
+    dfs(0)
+    order.reverse()
+    entry = {0: {l: None for l in cursors}}
+    for b in order:
+        cur = dict(entry.get(b, {l: None for l in cursors}))
+        for l in cursors:
+            states[l][b] = cur.get(l)  # provisional (value at block entry) so that rvalues of this block can be evaluated
+        blk = fn.blocks[b]
+        for st in blk['stmts']:
+            pl = st['place']
+            tgt = None
+            if not pl['p'] and pl['l'] in cursors:
+                tgt = pl['l']
+            elif len(pl['p']) == 1 and pl['p'][0]['k'] == 'deref' and pl['l'] in pts:
+                tgt = pts[pl['l']]
+            if tgt is None:
+                continue
+            rv = st['rv']
+            term = None
+            if rv['k'] == 'use':
+                term = fn.term(rv['o'])
+            elif rv['k'] == 'ref':
+                term = fn.place_term(rv['place'])
+            off = slice_offset(F, fn, term, 0, b) if term is not None else ['?write']
+            cur[tgt] = tuple(off)
+            states[tgt][b] = cur[tgt]
+        t = blk['term']
+        if t['k'] == 'call' and not t['dest']['p'] and t['dest']['l'] in cursors:
+            # cur = cur.index(k..) / split_at(..).1 ... : evaluated from the call term itself at this block
+            term = fn.local_term(t['dest']['l']) if False else None
+            cur[t['dest']['l']] = ('?call-def',)
+        for l in cursors:
+            states[l][b] = cur.get(l)
+        for x in fn.succ(b):
+            if fn.blocks[x]['cleanup']:
+                continue
+            if x not in entry:
+                entry[x] = dict(cur)
+            else:
+                for l in cursors:
+                    if entry[x].get(l) != cur.get(l):
+                        entry[x][l] = ('?join',)
+    return states
+
+
+def slice_offset(F, fn, t, depth=0, at=None):
+    """offset (list of addends) of a byte slice term relative to the decoder's input parameter; `at` is the block whose
+    terminator consumes the slice (set while descending through call terms; used for flow-sensitive cursor locals)"""
     t0 = strip(t)
     if depth > 30:
         return ['?']
     if t0[0] == 'arg':
         return []
+    if t0[0] in ('ref', 'deref'):
+        return slice_offset(F, fn, t0[1], depth + 1, at)
+    if t0[0] == 'var' and at is not None:
+        cs = cursor_states(F, fn)
+        l0 = cs.get('alias', {}).get(t0[1], t0[1])
+        if l0 in cs:
+            v = cs[l0].get(at)
+            return list(v) if v is not None else ['?cursor-unset']
+    if t0[0] == 'call':
+        at = t0[3]
     if t0[0] == 'subslice':
-        return slice_offset(F, fn, t0[1], depth + 1) + [t0[2]]
+        return slice_offset(F, fn, t0[1], depth + 1, at) + [t0[2]]
     if t0[0] == 'call' and t0[1].endswith(('Deref::deref', 'AsRef::as_ref', 'Borrow::borrow')):
-        return slice_offset(F, fn, t0[2][0], depth + 1)
+        return slice_offset(F, fn, t0[2][0], depth + 1, at)
     if t0[0] == 'call' and t0[1].endswith('ops::Index::index'):
         base = t0[2][0]
         r = strip(t0[2][1])
         if r[0] == 'agg' and r[1].endswith(('RangeFrom', 'ops::Range')):
-            return slice_offset(F, fn, base, depth + 1) + [sizeof_value(F, fn, dict(r[3])['start'])]
+            return slice_offset(F, fn, base, depth + 1, at) + [sizeof_value(F, fn, dict(r[3])['start'])]
         if r[0] == 'agg' and r[1].endswith('RangeTo'):
-            return slice_offset(F, fn, base, depth + 1)
-        return slice_offset(F, fn, base, depth + 1) + ['?range']
+            return slice_offset(F, fn, base, depth + 1, at)
+        return slice_offset(F, fn, base, depth + 1, at) + ['?range']
     if t0[0] in ('field', 'tuple') and t0[0] == 'field':
         b = strip(t0[1])
         # (rest of) `x.split_first()` / `x.split_first_chunk::<N>()`
         if b[0] == 'field' and b[2] == '0' and strip(b[1])[0] == 'downcast' and strip(b[1])[2] == 'Some' and strip(strip(b[1])[1])[0] == 'call':
             sc = strip(strip(b[1])[1])
             if sc[1].endswith('<impl [T]>::split_first') and sc[2]:
-                return slice_offset(F, fn, sc[2][0], depth + 1) + ([1] if t0[2] == '1' else [])
+                return slice_offset(F, fn, sc[2][0], depth + 1, sc[3]) + ([1] if t0[2] == '1' else [])
         if b[0] == 'call' and b[1].endswith('split_at'):
-            base = slice_offset(F, fn, b[2][0], depth + 1)
+            base = slice_offset(F, fn, b[2][0], depth + 1, b[3])
             if t0[2] == '0':
                 return base
             return base + [sizeof_value(F, fn, b[2][1])]
         if b[0] == 'call' and b[1].endswith('NodeId::from_bytes') and t0[2] == '1':
             g = F.fn('node_id::NodeId::from_bytes')
             adv = nodeid_from_bytes_rows(F, g)[1] if g else '?'
-            return slice_offset(F, fn, b[2][0], depth + 1) + [adv]
+            return slice_offset(F, fn, b[2][0], depth + 1, b[3]) + [adv]
     if t0[0] == 'phi':
         return ['?phi']
     return ['?' + show(t0)[:40]]
@@ -654,10 +784,17 @@ def read_row(F, fn, t):
         if n.startswith('byteorder::ByteOrder::') and last in READS:
             c = fn.call_at(t0[3])
             en = 'BE' if 'BigEndian' in c.resolved else ('LE' if 'LittleEndian' in c.resolved else '?')
-            return (total(slice_offset(F, fn, t0[2][0])), READS[last], en)
+            return (total(slice_offset(F, fn, t0[2][0], 0, t0[3])), READS[last], en)
         if last in ('from_be_bytes', 'from_le_bytes', 'from_ne_bytes') and impl_int(n):
             en = {'from_be_bytes': 'BE', 'from_le_bytes': 'LE', 'from_ne_bytes': 'NE'}[last]
-            return (('?',), INT_W.get(impl_int(n)), en)
+            # the [u8; N] operand: `slice.try_into().unwrap()`, `*array_ref`, ... of a slice of the input
+            src = producer(t0[2][0]) if t0[2] else None
+            off = ('?',)
+            if src is not None:
+                o = total(slice_offset(F, fn, src, 0, t0[3]))
+                if not any(str(x).startswith('?') for x in o[1]):
+                    off = o
+            return (off, INT_W.get(impl_int(n)), en)
     return None
 
 
@@ -711,26 +848,79 @@ def producer(t):
             return t
 
 
+def _map_term(t, leaf):
+    """rebuild a term with `leaf(sub)` applied top-down (a non-None answer replaces the sub-term)"""
+    if not isinstance(t, tuple) or not t:
+        return t
+    r = leaf(t)
+    if r is not None:
+        return r
+    out = []
+    for x in t:
+        if isinstance(x, tuple):
+            out.append(_map_term(x, leaf))
+        elif isinstance(x, list):
+            out.append([_map_term(y, leaf) if isinstance(y, tuple) and y and isinstance(y[0], str) else
+                        ((y[0], _map_term(y[1], leaf)) if isinstance(y, tuple) and len(y) == 2 and isinstance(y[1], tuple) else y) for y in x])
+        else:
+            out.append(x)
+    return tuple(out)
+
+
+def closure_call(F, fn, p):
+    """`f(a, b)` with `f` a local closure: (closure fn, its return term with parameters and captures substituted), else None"""
+    if not (p[0] == 'call' and p[1].endswith(('Fn::call', 'FnMut::call_mut', 'FnOnce::call_once')) and len(p[2]) == 2):
+        return None
+    clo = strip(p[2][0])
+    while clo[0] in ('ref', 'deref'):
+        clo = strip(clo[1])
+    args = strip(p[2][1])
+    if clo[0] != 'closure' or F.fn(clo[1]) is None or args[0] != 'tuple':
+        return None
+    g = F.fn(clo[1])
+    rets = [t for b, k, t in paths.ret_assigns(g)]
+    if len(rets) != 1:
+        return None
+    actual = list(args[1])
+    caps = list(clo[2]) if len(clo) > 2 else []
+
+    def leaf(x):
+        if x[0] == 'arg' and isinstance(x[1], int) and x[1] >= 2 and x[1] - 2 < len(actual):
+            return ('paren', actual[x[1] - 2])
+        if x[0] == 'field' and isinstance(x[2], str) and x[2].isdigit():
+            b = strip(x[1])
+            if b[0] == 'arg' and b[1] == 1 and int(x[2]) < len(caps):
+                return ('paren', caps[int(x[2])])
+        return None
+    body = _map_term(rets[0], leaf)
+    # drop the protective wrappers again (they only kept substituted terms from being substituted twice)
+    body = _map_term(body, lambda x: _map_term(x[1], lambda y: None) if x[0] == 'paren' else None)
+    return g, body
+
+
 def _scalar(F, fn, t):
     """(offset, width, endian) for a decoded leaf field"""
     p = producer(t)
+    cc = closure_call(F, fn, p)
+    if cc is not None:
+        return _scalar(F, cc[0], cc[1])
     r = read_row(F, fn, p)
     if r:
         return r
     if p[0] == 'call':
         n = p[1]
         if n.endswith('pod_read_unaligned'):
-            return (total(slice_offset(F, fn, p[2][0])), 'H', 'pod-native')
+            return (total(slice_offset(F, fn, p[2][0], 0, p[3])), 'H', 'pod-native')
         if n.endswith('UnalignedVector::<Codec>::from_bytes'):
-            return (total(slice_offset(F, fn, p[2][0])), 'vector', 'raw')
+            return (total(slice_offset(F, fn, p[2][0], 0, p[3])), 'vector', 'raw')
         if n.endswith(('RoaringBitmap>::deserialize_from', 'RoaringBitmap>::deserialize_unchecked_from')):
-            return (total(slice_offset(F, fn, p[2][0])), 'roaring', 'portable' if n.endswith('deserialize_from') else 'portable-unchecked')
+            return (total(slice_offset(F, fn, p[2][0], 0, p[3])), 'roaring', 'portable' if n.endswith('deserialize_from') else 'portable-unchecked')
         if n.endswith('ItemIds::<\'a>::from_bytes') or n.endswith('ItemIds::from_bytes'):
-            return (total(slice_offset(F, fn, p[2][0])), 'u32*', 'raw-native')
+            return (total(slice_offset(F, fn, p[2][0], 0, p[3])), 'u32*', 'raw-native')
         if n.endswith('from_bytes_until_nul'):
-            return (total(slice_offset(F, fn, p[2][0])), 'str', 'raw')
+            return (total(slice_offset(F, fn, p[2][0], 0, p[3])), 'str', 'raw')
     if p[0] == 'field' and strip(p[1])[0] == 'call' and strip(p[1])[1].endswith('NodeId::from_bytes') and p[2] == '0':
-        return (total(slice_offset(F, fn, strip(p[1])[2][0])), 'NodeId', 'nodeid')
+        return (total(slice_offset(F, fn, strip(p[1])[2][0], 0, strip(p[1])[3])), 'NodeId', 'nodeid')
     if p[0] == 'cindex':
         base = strip(p[1])
         if base[0] in ('array', 'repeat', 'var', 'phi') and not (base[0] in ('var', 'phi') and '[u8' in fn.local_ty(base[1])):
